@@ -348,6 +348,10 @@ Definition upd_sub (key : string) (g : obj -> res obj) (e : obj) : res obj :=
 
 Definition roadm_with_params (e : obj) : res bool :=
   let* t := jreq K_type e in Ok (is_str K_roadm t && jhas K_params e).
+(* per-degree design bands: ROADMs and transceivers *)
+Definition K_trx := "Transceiver"%string.
+Definition band_elem_with_params (e : obj) : res bool :=
+  let* t := jreq K_type e in Ok ((is_str K_roadm t || is_str K_trx t) && jhas K_params e).
 
 (* ------------------------------------------------------------------ reorder_keys *)
 Definition reorder_item (key : string) (it : json) : res json :=
@@ -473,7 +477,7 @@ Definition design_band_params (p : obj) : res obj :=
       else Ok p'
   end.
 Definition design_band_elem (e : obj) : res obj :=
-  let* g := roadm_with_params e in if g then upd_sub K_params design_band_params e else Ok e.
+  let* g := band_elem_with_params e in if g then upd_sub K_params design_band_params e else Ok e.
 Definition convert_design_band (doc : obj) : res obj := on_elements design_band_elem doc.
 
 Definition back_db_step (st : res obj) (t : json) : res obj :=
@@ -495,7 +499,7 @@ Definition back_design_band_params (p : obj) : res obj :=
       else Ok p'
   end.
 Definition back_design_band_elem (e : obj) : res obj :=
-  let* g := roadm_with_params e in if g then upd_sub K_params back_design_band_params e else Ok e.
+  let* g := band_elem_with_params e in if g then upd_sub K_params back_design_band_params e else Ok e.
 Definition convert_back_design_band (doc : obj) : res obj := on_elements back_design_band_elem doc.
 
 (* ------------------------------------------------------------------ per-frequency loss *)
